@@ -600,6 +600,9 @@ pub fn run_c17(tier: &str, only: Option<String>) -> i32 {
             }
             st.bump(if c <= 0xffff { "char:Ok" } else { "char:UnsupportedCharacter" });
             st.nontrivial += 1;
+            if c == 0x20ac || c == 0x1f600 {
+                st.sample(json!({"char": format!("U+{c:04X}"), "result": format!("{:?}", r[0].out)}));
+            }
         }
     });
     st.merge(cs);
@@ -630,6 +633,9 @@ pub fn run_c17(tier: &str, only: Option<String>) -> i32 {
                 } else {
                     st.bump(if fits { "length:Ok" } else { "length:LengthTooLarge" });
                     st.nontrivial += 1;
+                    if n == 1usize << 31 {
+                        st.sample(json!({"container": what, "length": n, "result": "Err(LengthTooLarge)"}));
+                    }
                 }
             }
         }
